@@ -17,7 +17,9 @@ RULE = ("one case = one classifier fitted once on a generated tiny problem (8-14
         "Series), evaluated on 5 fresh instances: BOSSEnsemble, ContractableBOSS, IndividualBOSS, "
         "MUSE, ColumnEnsembleClassifier (2-3 members of different kinds on their own columns), "
         "TimeSeriesForestClassifier, RandomIntervalSpectralForest, SupervisedTimeSeriesForest, "
-        "TimeSeriesForestRegressor; plus function-level cases: BaseClassifier.predict/score on a "
+        "TimeSeriesForestRegressor; extra SupervisedTimeSeriesForest problems that are small and balanced so "
+        "that bootstrap bags miss classes (trees with fewer classes than the forest), three of them "
+        "pinned in corpus/C17; plus function-level cases: BaseClassifier.predict/score on a "
         "scripted probability matrix with ties, _slope on random series, _transform on random "
         "series/intervals, _get_intervals with a scripted rng. non-trivial = ran without error and "
         "(for classifiers) at least one probability row or member vote is not unanimous, or k >= 3; "
@@ -30,8 +32,11 @@ TRUSTED = [
     "the removed `base_estimator=` keyword (mapped to `estimator=`, attribute `base_estimator` set) so "
     "that the interval forests can be constructed; nothing in /repo is patched",
     "the harness reads the fitted members' outputs with the members' own public methods "
-    "(member.predict / predict_proba, sklearn tree.predict_proba on the forest's own _transform "
-    "output, MUSE's fitted pipeline on its own _transform_words output)",
+    "(member.predict / predict_proba, sklearn tree.predict_proba and tree.classes_ on the forest's own "
+    "_transform output - for SupervisedTimeSeriesForest the three _transform blocks (series, "
+    "periodogram, first difference) concatenated by the harness in the order of "
+    "_predict_proba_for_estimator, whose own result is compared too -, MUSE's fitted pipeline on its "
+    "own _transform_words output)",
 ]
 MODELLED = [
     "the fitted members (BOSS 1-NN members, decision trees, MUSE's logistic pipeline, column-ensemble "
@@ -151,6 +156,16 @@ def gen_cases(rng, tier):
         ni = rng.randint(1, 5)
         cases.append({"kind": "intervals", "ni": ni, "mi": mi, "sl": sl,
                       "draws": [rng.randint(0, 10 ** 6) for _i in range(2 * ni)]})
+    # SupervisedTimeSeriesForest fits every tree on a bootstrap bag; on small balanced problems
+    # (no class below the average, so no balancing cases are added) a bag misses a class in about
+    # half of the forests: such a tree knows fewer classes than the forest (F-C17-1, repaired)
+    for _ in range(12 if tier == "quick" else 80):
+        k = rng.choice([3, 3, 4])
+        cases.append({"kind": "clf", "clf": "stsf", "seed": rng.randint(0, 10 ** 6), "k": k,
+                      "labelset": rng.choice(sorted(LABELSETS)), "sizes": [rng.choice([2, 3])] * k,
+                      "n_test": 3, "m": rng.randint(18, 24), "noise": rng.choice([0.3, 1.0, 2.5]),
+                      "rs": rng.choice([0, 1, 7, 42, 123]), "ycont": rng.choice(["array", "series"]),
+                      "unseen_test_label": rng.random() < 0.25})
     return cases
 
 
@@ -833,6 +848,10 @@ def distribution(cases, results):
         o = r.get("out") or {}
         key = c.get("clf", c["kind"])
         d["%s:%s" % (key, "error" if "err" in o else "fit-refused" if "fit_refused" in o else "ran")] += 1
+        if o.get("mkind") == "trees":
+            short = sum(1 for tc, _ in o["members"] if len(tc) < len(o["classes"]))
+            d["forests-with-a-tree-that-missed-a-class" if short else "forests-all-trees-saw-all-classes"] += 1
+            d["trees-that-missed-a-class"] += short
         if c["kind"] in ("clf", "basepredict") and o.get("proba"):
             d["classes=%d" % len(o["classes"])] += 1
             d["labels=%s" % c["labelset"]] += 1
